@@ -106,28 +106,31 @@ func (ex *Exec) inlineCall(fr *Frame, fn *ssa.Function, free []Val, args []Val, 
 		}
 	}
 	ex.vc.comment("inline " + fn.String())
-	ex.runBody(sub, st, reach)
+	// the callee works on its own copy: its edges and exits keep referring to that object, which is never overwritten
+	ex.runBody(sub, st.clone(), reach)
 	for _, p := range sub.panics {
 		fr.panics = append(fr.panics, p)
 	}
 	if len(sub.rets) == 0 {
 		// never returns normally: the rest of the block is unreachable
-		ex.vc.assume(Not(reach))
+		nr := False
+		fr.newReach = &nr
 		return ex.freshResults(fn.Signature, st)
 	}
 	var states []*State
 	var conds []Term
 	var vals []Val
 	for _, r := range sub.rets {
-		states = append(states, r.st)
+		states = append(states, r.st.clone()) // r.st may be the caller's own state object
 		conds = append(conds, r.cond)
 		vals = append(vals, resultVal(r.vals))
 	}
 	merged := ex.merge(states, conds)
 	*st = *merged
-	// the callee's non-returning paths (panics) do not continue here
+	// the callee's panicking paths do not continue here
 	if len(sub.panics) > 0 {
-		ex.vc.assume(Implies(reach, Or(conds...)))
+		nr := Or(conds...)
+		fr.newReach = &nr
 	}
 	if len(vals) == 1 {
 		return vals[0]
@@ -201,7 +204,7 @@ func (ex *Exec) applyContract(fr *Frame, c *Contract, names []string, args []Val
 		}
 	}
 	pre := st.clone()
-	envPre := &SpecEnv{vars: vars, st: pre, lst: pre, pkg: tpkg, topOld: pre.top}
+	envPre := &SpecEnv{vars: vars, st: pre, lst: pre, pkg: tpkg, topOld: pre.top, recovered: ex.recoveredArg}
 	envPre.old = envPre
 	for _, rq := range c.Requires {
 		g := ex.evalBool(rq.E, envPre)
@@ -265,20 +268,20 @@ func (ex *Exec) applyContract(fr *Frame, c *Contract, names []string, args []Val
 			}
 			return Forall([]Bound{{"r?", SInt}}, Implies(And(guard...), Eq(Select(nh, rv), Select(old, rv))))
 		}
+		// Objects the callee allocates live in cells at or above topPre, about which nothing has been
+		// assumed so far; existing cells of heaps outside the assigns clause are untouched. So only the
+		// named heaps get a new version (with a frame for everything below topPre).
+		names := map[string]bool{}
+		for h := range byHeap {
+			names[h] = true
+		}
+		if len(names) > 0 {
+			ex.bump(st, names, keep)
+		}
 		if allocates {
-			ex.bump(st, nil, keep)
 			nt := ex.vc.fresh("top", SInt)
 			ex.vc.assume(Ge(nt, topPre))
 			st.top = nt
-			if ex.track != nil {
-				// objects allocated by the callee may be written in any heap; they are all >= topPre
-			}
-		} else {
-			names := map[string]bool{}
-			for h := range byHeap {
-				names[h] = true
-			}
-			ex.bump(st, names, keep)
 		}
 	}
 	// results
@@ -299,7 +302,20 @@ func (ex *Exec) applyContract(fr *Frame, c *Contract, names []string, args []Val
 	if len(results) == 1 {
 		rvars["result"] = results[0]
 	}
+	if c.Throws {
+		// the callee may leave by an error-valued panic instead of returning
+		threw := ex.vc.fresh("threw", SBool)
+		ev := ex.vc.fresh("thrown", SIface)
+		ex.noteIface(errorType)
+		ex.noteIface(ex.runtimeErrorType())
+		ex.vc.assume(And(Neq(IfDyn(ev), IntLit(0)), Neq(IfVal(ev), IntLit(0)), ex.implementsTerm(IfDyn(ev), errorType), Not(ex.implementsTerm(IfDyn(ev), ex.runtimeErrorType()))))
+		fr.panics = append(fr.panics, panicExit{And(reach, threw), Scalar{ev, errorType}, pre.clone(), ex.where(pos), "error thrown by " + short})
+		nr := And(reach, Not(threw))
+		fr.newReach = &nr
+		reach = ex.vc.define("returned", nr)
+	}
 	envPost := &SpecEnv{vars: rvars, st: st, lst: st, pkg: tpkg, old: envPre, topOld: topPre}
+	envPre.recovered, envPost.recovered = ex.recoveredArg, ex.recoveredArg
 	if len(c.Ghosts) > 0 {
 		envPost.ghosts = map[string]string{}
 		for _, g := range c.Ghosts {
@@ -484,6 +500,14 @@ func (ex *Exec) builtin(fr *Frame, b *ssa.Builtin, c *ssa.CallCommon, args []Val
 		return ex.appendOp(fr, c, args, st, reach, pos)
 	case "copy":
 		return ex.copyOp(fr, c, args, st, reach, pos)
+	case "recover":
+		if fr.recovered != nil {
+			return Scalar{*fr.recovered, c.Value.Type().(*types.Signature).Results().At(0).Type()}
+		}
+		if fr.parent == nil && ex.topRecovered != nil {
+			return Scalar{*ex.topRecovered, c.Value.Type().(*types.Signature).Results().At(0).Type()}
+		}
+		return Scalar{NilIface, c.Value.Type().(*types.Signature).Results().At(0).Type()}
 	case "ssa:wrapnilchk":
 		return args[0]
 	case "ssa:deferstack":
@@ -605,4 +629,15 @@ func sortedKeys(m map[string]bool) []string {
 	}
 	sort.Strings(ks)
 	return ks
+}
+
+var errorType = types.Universe.Lookup("error").Type()
+
+func (ex *Exec) runtimeErrorType() types.Type {
+	if pk := ex.prog.pkgByPath["runtime"]; pk != nil && pk.Types != nil {
+		if o := pk.Types.Scope().Lookup("Error"); o != nil {
+			return o.Type()
+		}
+	}
+	panic(unsupported("package runtime is not loaded"))
 }
